@@ -55,29 +55,38 @@ def callOut (c : SampleCall DS) : Json :=
   Json.mkObj [("num_samples", nOut c.numSamples), ("k", nOut c.k),
     ("init", match c.init with | some s => nOut s.id | none => Json.null), ("overwrite", .bool c.overwrite)]
 
-/-- op `c13.statistics`: `ObservableBase.statistics` (per observable) or `System.statistics` (all together) on a
-recorded run: `ret_ids[i]` = identity token of the tensor the i-th sampler call returned, `chunks[o][i]` = values of
-observable `o` on the state returned by call `i`. -/
-def statistics (j : Json) : R Json := do
+/-- the recorded run of one `statistics` call: `ret_ids[i]` = identity token of the tensor the i-th sampler call
+returned; the chain-state token `⟨id, i + 1⟩` stands for "what call `i` returned". -/
+def parseRun (j : Json) : R (Env DS × Args DS) := do
   let numSamples ← jNat (← fld j "num_samples")
   let numChains ← jNat (← fld j "num_chains")
   let burnIn ← jNat (← fld j "burn_in")
   let steps ← jNat (← fld j "steps")
   let overwrite ← jBool (← fld j "overwrite")
-  let system ← jBool (← fld j "system")
   let cloneId ← jNat (← fld j "clone_id")
   let retIds ← jNatArr (← fld j "ret_ids")
   let initRows? ← (match fldOpt j "init_rows" with
     | some v => do return some (← jNat v)
     | none => pure none)
   let userId ← jNat (← fld j "user_id")
-  let chunksJ ← jArr (← fld j "chunks")
-  let chunks ← chunksJ.mapM (fun o => do (← jArr o).mapM jFloatArr)
   let env : Env DS := {
     samp := fun i _ => ⟨retIds.getD i 999999, i + 1⟩
     clone := fun s => ⟨cloneId, s.draw⟩
     rows := fun _ => initRows?.getD 0 }
   let args : Args DS := ⟨numSamples, numChains, burnIn, steps, initRows?.map (fun _ => ⟨userId, 0⟩), overwrite⟩
+  return (env, args)
+
+/-- op `c13.statistics`: `ObservableBase.statistics` (per observable) or `System(*observables).statistics` (all
+together, keyed by `names` — same-named observables are merged by `systemInit`) on a recorded run: `chunks[o][i]` =
+values of observable `o` on the state returned by call `i`. -/
+def statistics (j : Json) : R Json := do
+  let (env, args) ← parseRun j
+  let system ← jBool (← fld j "system")
+  let chunksJ ← jArr (← fld j "chunks")
+  let chunks ← chunksJ.mapM (fun o => do (← jArr o).mapM jFloatArr)
+  let names ← (match fldOpt j "names" with
+    | some v => do (← jArr v).mapM jStr
+    | none => pure ((Array.range chunks.size).map (fun i => s!"#{i}")))
   let fOf (o : Nat) : DS → List Float := fun st =>
     if st.draw == 0 then [] else ((chunks.getD o #[]).getD (st.draw - 1) #[]).toList
   let onepass : Array Json := chunks.map (fun o =>
@@ -86,12 +95,14 @@ def statistics (j : Json) : R Json := do
     | .error e => errOut e)
   let setup := chainSetup env args
   let hdr : List (String × Json) := [("onepass", .arr onepass), ("c", nOut setup.2),
-    ("T", match numTimeSteps numSamples setup.2 with | .ok T => nOut T | .error e => errOut e)]
+    ("T", match numTimeSteps args.numSamples setup.2 with | .ok T => nOut T | .error e => errOut e)]
   if system then
-    match sysStatistics env ((List.range chunks.size).map fOf) args with
+    let obs : List (String × (DS → List Float)) := (List.range chunks.size).map (fun o => (names.getD o "?", fOf o))
+    match systemStatistics env obs args with
     | .error e => return Json.mkObj (hdr ++ [("result", errOut e)])
     | .ok (ss, tr) =>
-      return Json.mkObj (hdr ++ [("result", Json.mkObj [("stats", .arr (ss.toArray.map statOut)),
+      return Json.mkObj (hdr ++ [("result", Json.mkObj [("stats", .arr (ss.toArray.map (fun e => statOut e.2))),
+        ("names", .arr (ss.toArray.map (fun e => .str e.1))),
         ("calls", .arr (tr.toArray.map callOut))])])
   else
     let rs := (List.range chunks.size).map (fun o =>
@@ -100,12 +111,40 @@ def statistics (j : Json) : R Json := do
       | .ok (s, tr) => Json.mkObj [("stats", statOut s), ("calls", .arr (tr.toArray.map callOut))])
     return Json.mkObj (hdr ++ [("result", .arr rs.toArray)])
 
+/-- op `c13.system_from_samples`: `System(*observables).statistics_from_samples` — `values[o]` = per-sample values of
+observable `o` (named `names[o]`) on the given batch. -/
+def systemFrom (j : Json) : R Json := do
+  let names ← (← jArr (← fld j "names")).mapM jStr
+  let values ← (← jArr (← fld j "values")).mapM jFloatArr
+  let obs : List (String × (Unit → List Float)) :=
+    (List.range values.size).map (fun o => (names.getD o "?", fun _ => (values.getD o #[]).toList))
+  match systemFromSamples obs () with
+  | .error e => return errOut e
+  | .ok ss => return Json.mkObj [("names", .arr (ss.toArray.map (fun e => .str e.1))),
+      ("stats", .arr (ss.toArray.map (fun e => statOut e.2)))]
+
+/-- op `c13.sample`: `ObservableBase.sample` — the sampler call made and the values returned (`values` = the
+observable on the tensor with identity token `ret_id` that the call returned). -/
+def sampleOp (j : Json) : R Json := do
+  let k ← jNat (← fld j "k")
+  let numSamples ← jNat (← fld j "num_samples")
+  let overwrite ← jBool (← fld j "overwrite")
+  let hasInit ← jBool (← fld j "has_init")
+  let retId ← jNat (← fld j "ret_id")
+  let values ← jFloatArr (← fld j "values")
+  let env : Env DS := { samp := fun _ _ => ⟨retId, 1⟩, clone := id, rows := fun _ => 0 }
+  let f : DS → List Float := fun st => if st.draw == 1 then values.toList else []
+  let r := obsSample env f k numSamples (if hasInit then some ⟨0, 0⟩ else none) overwrite
+  return Json.mkObj [("values", fListOut r.1), ("call", callOut r.2)]
+
 def handle (op : String) (j : Json) : Option (R Json) :=
   match op with
   | "c13.update" => some (update j)
   | "c13.from_samples" => some (fromS j)
   | "c13.fold" => some (fold j)
   | "c13.statistics" => some (statistics j)
+  | "c13.system_from_samples" => some (systemFrom j)
+  | "c13.sample" => some (sampleOp j)
   | _ => none
 
 end Drv.C13
